@@ -57,6 +57,9 @@ func c03Gen(tier string, seed int64) []core.Case {
 	var cs []core.Case
 	scheds := []string{"fifo", "lifo", "random", "future"}
 	pats := []string{"small", "large", "nearq", "seeded", "geq"}
+	if tier == "thorough" {
+		pats = append(pats, "huge", "geP", "congruent")
+	}
 	k := 0
 	add := func(curve string, n, t int, pat, sch string, cost float64) {
 		id := fmt.Sprintf("%s/n%d-t%d/%s/%s", curve, n, t, pat, sch)
@@ -75,6 +78,13 @@ func c03Gen(tier string, seed int64) []core.Case {
 		add("secp256k1", 3, 2, "nearq", "random", 6)
 		add("secp256k1", 5, 2, "seeded", "fifo", 12)
 		add("secp256k1", 3, 1, "geq", "future", 6)
+		add("secp256k1", 3, 1, "huge", "fifo", 6)
+		add("secp256k1", 2, 1, "geP", "fifo", 4)
+		add("secp256k1", 3, 1, "congruent", "fifo", 6)
+	}
+	for _, pat := range []string{"huge", "geP", "congruent"} {
+		add("ed25519", 3, 1, pat, "fifo", 1)
+		add("ed25519", 4, 2, pat, "random", 1)
 	}
 	maxN := tierN(tier, 5, 6)
 	for n := 2; n <= maxN; n++ {
@@ -153,6 +163,13 @@ func c03Run(c core.Case, env *core.Env) core.Result {
 	w.Run(schedByName(c.P.Str("sched"), w), nil)
 	noteRun(&r, w)
 	views, missing := viewsOf(w, "")
+	if errs := errorsOf(w); len(errs) > 0 && c.P.Str("pat") == "congruent" {
+		// two ids congruent modulo the group order are not an admissible key set: refusing it is the right answer
+		r.Count("inadmissible_ids_refused", 1)
+		r.Count("keygens_completed", 0)
+		r.NonTrivial = true
+		return r
+	}
 	if errs := errorsOf(w); len(errs) > 0 {
 		// conditional property: a refusal is not a violation, but an error between honest parties on admissible ids is
 		r.Fail("keygen:honest-error", "honest keygen reported errors: %s", core.Clip(strings.Join(errs, " | "), 600))
